@@ -1150,9 +1150,10 @@ func (w *world) apply(e event) {
 }
 
 type bounds struct {
-	maxSL, maxNuts int
-	advances       []string
-	maxOffset      time.Duration
+	attacks, outages []string
+	maxSL, maxNuts   int
+	advances         []string
+	maxOffset        time.Duration
 }
 
 func (w *world) enabled(b bounds) []event {
@@ -1196,10 +1197,10 @@ func (w *world) enabled(b bounds) []event {
 		}
 	}
 	if w.firstCred(1, true) != nil {
-		for _, k := range attackKinds {
+		for _, k := range b.attacks {
 			out = append(out, event{Op: "attack", K: k})
 		}
-		for _, k := range outageKinds {
+		for _, k := range b.outages {
 			out = append(out, event{Op: "outage", K: k})
 		}
 	}
@@ -1306,10 +1307,12 @@ func TestVerifC11BFS(t *testing.T) {
 	}
 
 	depth := 4
-	b := bounds{maxSL: 2, maxNuts: 1, advances: []string{"16m", "19h"}, maxOffset: 30 * time.Hour}
+	// quick leaves out one forged list of the observation class and one of the three endpoint failures
+	b := bounds{maxSL: 2, maxNuts: 1, advances: []string{"16m", "19h"}, maxOffset: 30 * time.Hour,
+		attacks: []string{"other-subject-id", "bad-signature", "claims-issuer-signed-by-other", "wrong-purpose", "other-issuer"}, outages: []string{"http-500", "truncated-body"}}
 	if r.Thorough() {
 		depth = 5 // depth 6 would be about 2.7 million transitions (about 15 successors per state, 50 ms each)
-		b = bounds{maxSL: 2, maxNuts: 1, advances: []string{"16m", "19h", "25h"}, maxOffset: 50 * time.Hour}
+		b = bounds{maxSL: 2, maxNuts: 1, advances: []string{"16m", "19h", "25h"}, maxOffset: 50 * time.Hour, attacks: attackKinds, outages: outageKinds}
 	}
 	outcomes := map[string]int{}
 	idx, nStates := 0, 0
